@@ -452,6 +452,8 @@ def _await(obs, is_done, what, wall=None):
 def _drive(obs, mgr, xfers, spec, mode, do_cancel):
     w = obs.world
     log = w.log
+    w.mgr, w.xfers, w.chained = mgr, xfers, []  # for subscribers that act on sibling transfers / start new ones from a callback
+    obs.chained = w.chained
     submit_obs = []
     # Submission may block (queue limits), so it runs on its own thread and is
     # itself an obligation.
@@ -558,6 +560,23 @@ def _drive(obs, mgr, xfers, spec, mode, do_cancel):
             for x in xfers:
                 if x.future is not None:
                     x.outcome_after = _collect(x)
+        if spec.get('chained'):
+            # subscribers that start a fresh transfer / cancel siblings from inside on_done: the callbacks run just after result()
+            # is unblocked, so let them run as far as they can, then everything they started has to finish as well
+            with watchdog.polling():
+                watchdog.wait_quiescent(5.0, director=w.director, need=3)
+            chained = list(w.chained)
+            co = [watchdog.Obligation(lambda f=f: f.result(), name=f'chained-{k}').start() for (k, f, e) in chained if f is not None]
+            if not _await(obs, lambda: all(o.done.is_set() for o in co), 'chained-result'):
+                return
+            it = iter(co)
+            obs.chained_outcomes = []
+            for (k, f, e) in chained:
+                if f is None:
+                    obs.chained_outcomes.append((k, 'submit-raised', repr(e)))
+                else:
+                    o = next(it)
+                    obs.chained_outcomes.append((k, 'raised', repr(o.exc)) if o.exc is not None else (k, 'success', None))
         if spec.get('probe'):
             # permits are returned by done-callbacks of the executor futures, which run just
             # after result() is unblocked: probe at quiescence, as the statement says
